@@ -184,7 +184,21 @@ func (g *gen) execInstr(in ssa.Instruction, st *state) {
 	case *ssa.RunDefers:
 		for i := len(g.defers) - 1; i >= 0; i-- {
 			d := g.defers[i]
+			if d.Block().Dominates(g.curBlock) {
+				g.execCall(d, &d.Call, nil, st)
+				continue
+			}
+			// the defer statement is only on some paths to this point: its effect is conditional
+			dg, ok := g.guard[d.Block()]
+			if !ok {
+				continue // never reached
+			}
+			pre := st.clone()
+			saveGuard := g.curGuard
+			g.curGuard = sAnd(saveGuard, dg)
 			g.execCall(d, &d.Call, nil, st)
+			g.curGuard = saveGuard
+			g.mergeConditional(st, pre, dg)
 		}
 	case *ssa.Go:
 		g.note("go statement in %s: heap havocked", g.vc.Func)
@@ -211,7 +225,8 @@ func (g *gen) execInstr(in ssa.Instruction, st *state) {
 				g.escaped[l.alloc] = true
 			}
 			if a, ok := b.(*ssa.Alloc); ok && a.Heap {
-				if t, ok := g.vals[a]; ok && g.closureMayWrite(x.Fn.(*ssa.Function), bi) {
+				// only a closure that leaves this function (passed on, stored) can be run by arbitrary callees
+				if t, ok := g.vals[a]; ok && closureEscapes(x) && g.closureMayWrite(x.Fn.(*ssa.Function), bi) {
 					g.captured = append(g.captured, t)
 				}
 			}
@@ -1065,4 +1080,72 @@ func (g *gen) closureMayWrite(fn *ssa.Function, i int) bool {
 		return false
 	}
 	return derived(fv, 0)
+}
+
+// mergeConditional: st := cond ? st : pre (for every heap variable and cell that differs).
+func (g *gen) mergeConditional(st, pre *state, cond string) {
+	if st.epoch != pre.epoch {
+		// materialise every variable either side knows under a fresh merge epoch
+		post := st.clone()
+		me := g.fresh("e")
+		g.epochs[me] = &epochInfo{parents: []parentLink{{post, cond}, {pre, sNot(cond)}}}
+		keys := map[string]bool{}
+		for k := range post.heap {
+			keys[k] = true
+		}
+		for k := range pre.heap {
+			keys[k] = true
+		}
+		st.epoch = me
+		nh := map[string]string{}
+		for k := range keys {
+			srt := g.heapSorts[k]
+			a, b := g.heapVar(post, k, srt), g.heapVar(pre, k, srt)
+			if a == b {
+				nh[k] = a
+			} else {
+				nh[k] = g.define(k+"@m", srt, sIte(cond, a, b))
+			}
+		}
+		st.heap = nh
+	} else {
+		for k, a := range st.heap {
+			b := g.heapVar(pre, k, g.heapSorts[k])
+			if a != b {
+				st.heap[k] = g.define(k+"@m", g.heapSorts[k], sIte(cond, a, b))
+			}
+		}
+	}
+	for a, v := range st.cells {
+		if pv := g.cellValue(pre, a); pv != v {
+			st.cells[a] = g.define("cell."+sanitize(a.Comment)+"@m", g.sorts.sortOf(deref(a.Type())), sIte(cond, v, pv))
+		}
+	}
+	if st.top != pre.top {
+		st.top = g.define("top@m", "Int", sIte(cond, st.top, pre.top))
+	}
+}
+
+// closureEscapes: is the closure value used for anything but being called or deferred right here?
+func closureEscapes(mc *ssa.MakeClosure) bool {
+	refs := mc.Referrers()
+	if refs == nil {
+		return false
+	}
+	for _, r := range *refs {
+		switch u := r.(type) {
+		case *ssa.DebugRef:
+		case *ssa.Defer:
+			if u.Call.Value != ssa.Value(mc) {
+				return true
+			}
+		case *ssa.Call:
+			if u.Call.Value != ssa.Value(mc) {
+				return true
+			}
+		default:
+			return true
+		}
+	}
+	return false
 }
